@@ -3,6 +3,7 @@ package main
 // ssahelp.go: small SSA / CFG helpers shared by the rules.
 
 import (
+	"go/ast"
 	"go/constant"
 	"go/token"
 	"go/types"
@@ -798,4 +799,36 @@ func resolveSpill(v ssa.Value) ssa.Value {
 		return last
 	}
 	return v
+}
+
+// assignedToNamedResult: in the syntax of fn, is the call at c's position the right-hand side of an assignment
+// whose left-hand side includes the identifier `name` (the named error result)?
+func assignedToNamedResult(w *World, fn *ssa.Function, c *ssa.Call, name string) bool {
+	syn := fn.Syntax()
+	if syn == nil {
+		return false
+	}
+	found := false
+	ast.Inspect(syn, func(n ast.Node) bool {
+		as, ok := n.(*ast.AssignStmt)
+		if !ok || found {
+			return true
+		}
+		for _, rhs := range as.Rhs {
+			call, ok := rhs.(*ast.CallExpr)
+			if !ok {
+				continue
+			}
+			if call.Lparen != c.Pos() && call.Pos() != c.Pos() {
+				continue
+			}
+			for _, lhs := range as.Lhs {
+				if id, ok := lhs.(*ast.Ident); ok && id.Name == name {
+					found = true
+				}
+			}
+		}
+		return true
+	})
+	return found
 }
